@@ -105,6 +105,7 @@ def run(ctx):
     }
     for name, (callee, exp) in expect.items():
         f = p.modfunc(S, name)
+        _CURRENT[0] = f
         calls = find_calls(f, lambda c: norm(c.func) == callee.srcname)
         rets = [r for r in walk_own(f.node) if isinstance(r, ast.Return)]
         if len(calls) != 1 or len(rets) != 1 or rets[0].value is not calls[0]:
@@ -242,8 +243,27 @@ def run(ctx):
     ctx.floor("F4", 2)
 
 
+_CURRENT = [None]
+
+
 def _is_attr_lambda(e):
-    """lambda n: _filter_by_name(n, name, value)"""
+    """lambda n: _filter_by_name(n, name, value)  — or a local def / name bound to one"""
+    f = _CURRENT[0]
+    if isinstance(e, ast.Name) and f is not None:
+        from .common import local_def, resolve_local
+        r = resolve_local(f, e)
+        if isinstance(r, ast.Name):
+            d = local_def(f, r.id)
+            if isinstance(d, ast.FunctionDef) and len(d.args.args) == 1:
+                from ..model import strip_doc
+                b = strip_doc(d.body)
+                v = d.args.args[0].arg
+                return len(b) == 1 and isinstance(b[0], ast.Return) and isinstance(b[0].value, ast.Call) \
+                    and norm(b[0].value.func) == "_filter_by_name" and [norm(a) for a in b[0].value.args] == [v, "name", "value"] \
+                    and not b[0].value.keywords
+            e = d if d is not None else r
+        else:
+            e = r
     if not isinstance(e, ast.Lambda) or len(e.args.args) != 1:
         return False
     v = e.args.args[0].arg
